@@ -43,6 +43,8 @@ m = {
          "kind_free_text": "front end N: the real function objects of /repo run on symbolic tensors (torch.Tensor wrapper subclass carrying exact exp-polynomial scalars); callees replaced by contract stubs; obligations discharged by normal form + z3/cvc5"},
         {"name": "qv-astvc", "path": "qv/astvc.py", "serves_properties": serves.get("qv-astvc", []),
          "kind_free_text": "front end A: source re-read from /repo on every run, loops with sidecar invariants rewritten to Hoare cut points, executed under forking symbolic scalars with ghost state; obligations discharged by z3/cvc5"},
+        {"name": "qv-gen", "path": "qv/gen.py", "serves_properties": serves.get("qv-gen", []),
+         "kind_free_text": "front end G: the real tensor code run on tensors of symbolic shape (element-wise descriptions with sums over whole dimensions); size comparisons fork the run; obligations discharged by tensor-algebra normal form for every size, size-generic lemmas over the contracts by Lean 4 + Mathlib (lean/Marginals.lean)"},
     ],
     "checks": checks,
     "notes": "Contract-based deductive verification; see DESIGN.md. Exit codes: 0 held, 1 violation (VIOLATION line), 2 undecided, 3 checker crash. known_findings.json lists open/fixed findings.",
